@@ -256,6 +256,19 @@ CHECKS["C15"] = {
     ],
 }
 
+CHECKS["C14"] = {
+    "engine": "simnet",
+    "level": "exploration",
+    "technique": "property-based testing (rapid) of Close/constructor-failure schedules under synctest with a goroutine census by id and a counting event bus; drawn Close instants, option matrices and injected constructor faults",
+    "level_text": "For each component, generated option combinations, background activity and Close instants run against the real code inside a virtual-time bubble; the goroutines alive after construction are recorded by id and must all be gone when "
+                  "Close returns, every Close call and every in-flight operation must return without panic, and nothing may be left after the wind-down; constructors are failed at injected points and must leave no goroutine or subscription. Exploration.",
+    "level_note": "Censuses are taken at quiescent points (synctest.Wait, which does not advance the clock): a goroutine that Close does not wait for but that ends without the clock advancing is not distinguished; Close instants are virtual instants, not arbitrary instructions.",
+    "parts": [
+        {"part": "ipfsdht", "pkg": ROOT, "test": "TestVerif_C14_IpfsDHT", "quick": 1200, "thorough": 20000},
+        {"part": "constructors", "pkg": ROOT, "test": "TestVerif_C14_Constructors", "quick": 300, "thorough": 3000},
+    ],
+}
+
 MANIFEST_HEAD = {
     "version": 1,
     "setup_cmd": "bin/check --setup",
